@@ -623,7 +623,7 @@ package mast
 //@ modifies W Arr.Any@fresh Node.*@fresh mastNode.*@fresh
 //@ requires nn (> node 0)
 //@ requires range (and (<= 0 from) (<= from to) (<= to (nkeys H node)) (Shape H node))
-//@ ensures res [C01 C08 C09] (or (= result 0) (and (> result W0) (<= result W) (Shape H result) (FreshArrays H result W0) (mastNode.dirty H result) (not (mastNode.shared H result)) (= (nkeys H result) (- to from))))
+//@ ensures res [C01 C08 C09] (or (= result 0) (and (> result W0) (<= result W) (Shape H result) (FreshArrays H result W0) (mastNode.dirty H result) (not (mastNode.shared H result)) (= (nkeys H result) (- to from)) (not (and (= (nlinks H result) 1) (isNil (LinkAt H result 0))))))
 //@ ensures dp [C02 C11 C13] (=> (DirtyPrivate H0) (DirtyPrivate H))
 
 //@ func (*Mast).grow
